@@ -18,6 +18,8 @@ CASES = [
  ("R10", "src/persistence/storage.rs", "                    if key.starts_with(prefix.as_bytes()) {\n", "                    if key.starts_with(prefix.as_bytes()) || true {\n", "C17", "scan chain yields rows of other tenants"),
  ("R29", "src/query/mod.rs", "        let whitespace_may_matter = query_str.chars().any(Self::opens_quoted_text_or_comment);\n", "        let whitespace_may_matter = query_str.chars().any(Self::opens_quoted_text_or_comment) && query_str.len() < 64;\n", "C03", "long queries with literals are normalised"),
  ("R30", "src/rdf/serialization/turtle.rs", "Ok(Literal::new_simple_literal(value))", "Ok(Literal::new_simple_literal(value.trim()))", "C36", "shared reader trims simple literals"),
+ ("R9", "src/persistence/wal.rs", "            Err(e) if e.kind() == io::ErrorKind::UnexpectedEof => Ok(false),\n", "", "C15", "fill_or_eof() propagates a torn tail as an error"),
+ ("R27", "src/query/executor/operator.rs", "                let _ = store.delete_node(tenant_id, node_id);\n                return Err(e);\n", "                return Err(e);\n", "C05", "apply_on_create_sets() no longer deletes the half-built node"),
  ("R14", "src/graph/store.rs", "            if list[pos].1 == id {\n", "            if list[pos].0 == NodeId::new(id.as_u64()) {\n", "C06", "unlink_edge() removes by neighbour, not by relationship id"),
 ]
 
